@@ -404,7 +404,38 @@ func cookieDecoderComplete(c *Check, rule string) {
 		if !onHeader {
 			continue
 		}
-		switch name := cc.Common().StaticCallee().Name(); name {
+		name := cc.Common().StaticCallee().Name()
+		// cookies are separated by ';' only (RFC 6265): any other separator lets the value of one cookie smuggle in
+		// a second name=value pair (`theme=dark,__Host-…=id`)
+		if strings.HasPrefix(name, "Split") && len(args) >= 2 {
+			if sep, isC := constString(args[1]); !isC || strings.TrimSpace(sep) != ";" {
+				bad = "the header is split with separator " + descDepth(args[1], 2) + " at " + posOf(P, cc) + " (cookie pairs are separated by ';' only)"
+			}
+		}
+		if strings.HasPrefix(name, "FieldsFunc") && len(args) >= 2 {
+			okSep := false
+			if mc, isMC := args[1].(*ssa.MakeClosure); isMC {
+				args[1] = mc.Fn
+			}
+			if pf, isF := args[1].(*ssa.Function); isF && pf.Blocks != nil {
+				okSep = true
+				for _, pb := range pf.Blocks {
+					for _, pi := range pb.Instrs {
+						if bo, isB := pi.(*ssa.BinOp); isB {
+							for _, side := range []ssa.Value{bo.X, bo.Y} {
+								if k, isK := constInt(side); isK && k != ';' && k != ' ' {
+									okSep = false
+								}
+							}
+						}
+					}
+				}
+			}
+			if !okSep {
+				bad = "the header is split by a separator function that accepts more than ';' at " + posOf(P, cc)
+			}
+		}
+		switch name {
 		case "Split", "SplitAfter", "SplitSeq", "FieldsFunc", "FieldsFuncSeq":
 			nSplit++
 		case "SplitN", "SplitAfterN":
